@@ -24,11 +24,11 @@ package log
 //@   requires err != nil
 //@   modifies nothing
 //@
-//@ // ---- C19: the structured iteration_stats group names each count by its own key, started defaulting to the sum
+//@ // ---- C19: the structured iteration_stats group states each count it is given under its own key
 //@ func IterationStatsGroup
 //@   props C19
 //@   modifies nothing
-//@   assert before call slog.Uint64 #0 : [started] arg0 == "started" && arg1 == (started == 0 ? (successful + failed + dropped) % 18446744073709551616 : started)
+//@   assert before call slog.Uint64 #0 : [started] arg0 == "started" && arg1 == started
 //@   assert before call slog.Uint64 #1 : [successful] arg0 == "successful" && arg1 == successful
 //@   assert before call slog.Uint64 #2 : [failed] arg0 == "failed" && arg1 == failed
 //@   assert before call slog.Uint64 #3 : [dropped] arg0 == "dropped" && arg1 == dropped
